@@ -690,6 +690,9 @@ enum ChildResult {
     /// killed at the wall-clock cap: decides nothing about the stack
     Slow,
     Crashed(String),
+    /// the child's bounded-stack thread panicked (an engine panic in a long game: C19's finding,
+    /// it decides nothing about the stack)
+    Panicked(String),
     Other(String),
 }
 
@@ -715,7 +718,15 @@ fn run_child(n: u64, stack: usize, seed: u64) -> ChildResult {
     }
     match out.status.code() {
         Some(0) if stdout.contains("STACK-CHILD-OK") => ChildResult::Ok(stdout.trim().to_string()),
-        Some(4) => ChildResult::Crashed(format!("child thread panicked: {}", stderr.lines().last().unwrap_or(""))),
+        Some(4) => {
+            let lines: Vec<&str> = stderr.lines().collect();
+            let at = lines.iter().position(|l| l.contains("panicked at"));
+            let msg = match at {
+                Some(i) => format!("{} {}", lines[i].trim(), lines.get(i + 1).map_or("", |l| l.trim())),
+                None => stderr.lines().last().unwrap_or("").to_string(),
+            };
+            ChildResult::Panicked(format!("child thread panicked: {}", msg))
+        }
         c => ChildResult::Other(format!("exit {:?}: {} {}", c, stdout.trim(), stderr.lines().last().unwrap_or(""))),
     }
 }
@@ -727,13 +738,15 @@ pub fn replay(f: &ReplayFile) -> Result<Option<(String, String)>, String> {
     match run_child(n, stack, seed) {
         ChildResult::Ok(_) | ChildResult::Slow => Ok(None),
         ChildResult::Crashed(d) => Ok(Some(("stack.child_exit_status".to_string(), d))),
+        ChildResult::Panicked(d) => Ok(Some(("long_game.no_panic".to_string(), d))),
         ChildResult::Other(e) => Err(e),
     }
 }
 
-fn cmd_children(tier: &str, seed: u64, out: &str, replay_dir: &str) -> i32 {
+fn cmd_children(prop: &str, tier: &str, seed: u64, out: &str, replay_dir: &str) -> i32 {
     let t0 = Instant::now();
     let thorough = tier == "thorough";
+    let c19 = prop == "C19";
     let mut rng = Rng::new(seed ^ 0xC20);
     // fixed corner cases first, then randomised (N, S)
     let mut plan: Vec<(u64, usize)> = vec![(100, 256 << 10), (3_000, 256 << 10), (30_000, 256 << 10), (100_000, 2 << 20), (200_000, 2 << 20), (300_000, 1 << 20)];
@@ -751,7 +764,19 @@ fn cmd_children(tier: &str, seed: u64, out: &str, replay_dir: &str) -> i32 {
             plan.push((100_000, 1 << 20));
         }
     }
-    let extra = if unopt { 0 } else if thorough { 40 } else { 7 };
+    if c19 {
+        // C19's long games: the question is a panic, not the stack; lengths just past every
+        // narrow counter width (2^8, 2^16) and a few in between, on roomy stacks
+        plan = vec![(60, 8 << 20), (300, 8 << 20), (1_000, 8 << 20), (5_000, 8 << 20), (20_000, 8 << 20), (70_000, 8 << 20)];
+        if thorough {
+            plan.push((300_000, 8 << 20));
+            plan.push((1_000_000, 8 << 20));
+        }
+        if unopt {
+            plan = vec![(60, 8 << 20), (300, 8 << 20), (3_000, 8 << 20), (if thorough { 70_000 } else { 20_000 }, 8 << 20)];
+        }
+    }
+    let extra = if unopt || c19 { 0 } else if thorough { 40 } else { 7 };
     for _ in 0..extra {
         let n = match rng.below(5) {
             0 => 100 + rng.below(900) as u64,
@@ -789,6 +814,26 @@ fn cmd_children(tier: &str, seed: u64, out: &str, replay_dir: &str) -> i32 {
                 eprintln!("HARNESS-ERROR: stack child (turns {}, stack {}): {}", n, s, e);
                 return 2;
             }
+            ChildResult::Panicked(d) if !c19 => {
+                eprintln!("note: the engine panicked in a long game ({} turns: {}); that is C19's finding, it decides nothing about the stack", n, d);
+            }
+            ChildResult::Crashed(d) if c19 => {
+                eprintln!("note: a long-game child was killed ({} turns: {}); that is C20's finding, not C19's", n, d);
+            }
+            ChildResult::Panicked(d) => {
+                if exit == 0 {
+                    let worst = results.iter().filter(|x| matches!(x.3, ChildResult::Panicked(_))).min_by_key(|x| x.0).unwrap();
+                    let d = match &worst.3 { ChildResult::Panicked(x) => x.clone(), _ => d.clone() };
+                    let path = format!("{}/C19-{}-long{}.json", replay_dir, seed, worst.0);
+                    let v = json!({"mode": "stack", "build": if unopt { "slow" } else { "plain" }, "property": "C19", "monitor": "long_game.no_panic", "detail": d, "turns": worst.0, "stack_bytes": worst.1, "child_seed": worst.2, "seed": seed, "repo_src_hash": repo_hash(), "how_to_replay": "cd /verif && ./run replay <this file>"});
+                    if (ReplayFile { v }).write(&path).is_err() {
+                        return 2;
+                    }
+                    println!("violation: property C19: a child that played {} capture-free turns (querying everything public at 40 points and at the end) panicked: {}", worst.0, d);
+                    println!("VIOLATION property=C19 replay={}", path);
+                    exit = 1;
+                }
+            }
             ChildResult::Crashed(d) => {
                 if exit == 0 {
                     // report the smallest crashing history
@@ -807,7 +852,7 @@ fn cmd_children(tier: &str, seed: u64, out: &str, replay_dir: &str) -> i32 {
     }
     let wall = t0.elapsed().as_secs_f64();
     let part = json!({
-        "part": if unopt { "bounded_stack_children_unoptimised_build" } else { "bounded_stack_children" },
+        "part": match (c19, unopt) { (true, true) => "long_game_children_no_panic_unoptimised_build", (true, false) => "long_game_children_no_panic", (false, true) => "bounded_stack_children_unoptimised_build", (false, false) => "bounded_stack_children" },
         "evaluations": results.len(),
         "distinct_nontrivial": distinct.len(),
         "rule": "each case = one child process that plays N legal capture-free turns (generated by the reference model, cross-checked against valid_actions() at 40 points), then on a thread with stack S: queries everything public (both lists, result, can_pass, has_move, hash, Display, ==, Hash, boards of steps, capture preview, the history list's iter/len/head/tail/append), plays on until the armies can touch within one turn and queries every mid-turn state on the contact file (states with a push pending at the last step among them), holds a search frontier of up to 600 states of the current turn plus 200 clones plus a boxed Option, releases them in bulk, and drops the state, an older branch and a clone in a seed-chosen order; non-trivial = distinct (N >= 1000, S) pairs that completed",
@@ -821,7 +866,7 @@ fn cmd_children(tier: &str, seed: u64, out: &str, replay_dir: &str) -> i32 {
     if std::fs::write(out, serde_json::to_string_pretty(&part).unwrap()).is_err() {
         return 2;
     }
-    println!("C20 child part{}: {} children, {} turns in total, {:.1}s", if unopt { " (unoptimised build)" } else { "" }, results.len(), total_turns, wall);
+    println!("{} child part{}: {} children, {} turns in total, {:.1}s", prop, if unopt { " (unoptimised build)" } else { "" }, results.len(), total_turns, wall);
     exit
 }
 
@@ -875,8 +920,8 @@ fn cmd_probe(tier: &str, seed: u64, out: &str, replay_dir: &str) -> i32 {
                 return 2;
             }
             Err(_) => {
-                eprintln!("HARNESS-ERROR: probe thread panicked");
-                return 2;
+                eprintln!("note: the engine panicked in the drop-depth probe at {} turns; that is C19's finding, it decides nothing about the stack", n);
+                break;
             }
         }
     }
@@ -922,7 +967,7 @@ pub fn cmd(args: &[String], tier: &str, seed: u64, out: &str, replay_dir: &str) 
             let cs: u64 = args.get(3).and_then(|x| x.parse().ok()).unwrap_or(1);
             cmd_child(n, s, cs)
         }
-        Some("children") => cmd_children(tier, seed, out, replay_dir),
+        Some("children") => cmd_children(args.get(1).map(|s| s.as_str()).unwrap_or("C20"), tier, seed, out, replay_dir),
         Some("longrep") => cmd_longrep(args.get(1).map(|s| s.as_str()).unwrap_or("C05"), tier, seed, out, replay_dir),
         Some("longgame") => cmd_longgame(tier, seed, out, replay_dir, args.get(1).and_then(|x| x.parse().ok())),
         Some("probe") => cmd_probe(tier, seed, out, replay_dir),
